@@ -322,7 +322,7 @@ harness(void) {
 #else
     VP_WITNESS("refused-same-length-different-bytes");
 #endif
-#if VP_RECS == 2 && (VP_CMP & 2)
+#if VP_RECS == 2 && (VP_CMP & 2) && (!(VP_CMP & 1) || VP_EN == VP_CN)
     if (bad == 1)
       VP_WITNESS("refused-at-second-record");
 #endif
